@@ -615,7 +615,7 @@ Lemma wf_field_inv E i fl f : wf_field E i fl f = true ->
   | Some _ => codec_eqb (f2_w f) (f2_r f) || val_eqb (f2_default f) VNull = true
   end.
 Proof.
-  unfold wf_field. intros H.
+  unfold wf_field. intros H. apply andb_true_iff in H. destruct H as [H _]. unfold wf_field0 in H.
   repeat (apply andb_true_iff in H; let H' := fresh "H" in destruct H as [H H']).
   repeat split; try assumption.
   destruct (f2_tag f); [|assumption].
@@ -736,8 +736,6 @@ Print Assumptions decode_prefix_underflow.
    differ in nullability at any depth, but a null ITEM read by a nullable item reader is neither
    the field's default nor a value the non-nullable item writer accepts (see the counterexample
    below).  Implied by codec_eqb, hence only a restriction on tagged fields. *)
-Definition arr_items_eq (w r : codec) : bool :=
-  match w, r with CArr _ x, CArr _ y => codec_eqb x y | _, _ => true end.
 Definition tagged_arrays_exact (E : list cplan2) : bool :=
   forallb (fun c => forallb (fun f => arr_items_eq (f2_w f) (f2_r f)) (c2_fields c)) E.
 
@@ -855,23 +853,32 @@ Definition cex_env : list cplan2 :=
   [ {| c2_name := Strings.String.EmptyString; c2_flexible := true; c2_fields := [cex_field] |} ].
 Definition cex_bytes : list Z := [1; 0; 2; 2; 0].
 
+(* why wf_env demands arr_items_eq: without it this environment would be accepted, and the
+   decoder returns a value the encoder cannot take *)
 Example decode_typed_needs_exact_arrays :
-  wf_env cex_env = true /\ tagged_arrays_exact cex_env = false /\
+  wf_env cex_env = false /\ tagged_arrays_exact cex_env = false /\
+  forallb (fun c => forallb (wf_field0 cex_env 0 (c2_flexible c)) (c2_fields c)) cex_env = true /\
   bytes_ok cex_bytes = true /\
   decode (map reader_plan cex_env) [] 0 cex_bytes = Ok (VEnt [VArr [VNull]], []) /\
   typed cex_env [] 0 (VEnt [VArr [VNull]]) = false.
 Proof. vm_compute. repeat split; reflexivity. Qed.
 
-Corollary decode_typed_false :
-  ~ (forall E ec, wf_env E = true ->
-     forall i bs fuel v rest, (i < length E)%nat -> (length bs < fuel)%nat -> bytes_ok bs = true ->
-     run (decoder (map reader_plan E) ec i fuel) bs = Ok (v, rest) -> typed E ec i v = true).
+Lemma wf_env_tagged_arrays_exact E : wf_env E = true -> tagged_arrays_exact E = true.
 Proof.
-  intros H. destruct decode_typed_needs_exact_arrays as (Hwf & _ & Hb & Hd & Ht).
-  unfold decode in Hd.
-  assert (H1: (0 < length cex_env)%nat) by (vm_compute; lia).
-  assert (H2: (length cex_bytes < S (length cex_bytes))%nat) by lia.
-  rewrite (H cex_env [] Hwf 0%nat cex_bytes _ _ _ H1 H2 Hb Hd) in Ht.
-  discriminate Ht.
+  intros Hwf. unfold tagged_arrays_exact. apply forallb_forall. intros c Hc.
+  apply In_nth_error in Hc. destruct Hc as [j Hj].
+  pose proof (wf_env_nth _ _ _ Hwf Hj) as Hwc. unfold wf_class in Hwc.
+  apply andb_true_iff in Hwc. destruct Hwc as [Hfs _].
+  apply forallb_forall. intros f Hf. rewrite forallb_forall in Hfs. specialize (Hfs f Hf).
+  unfold wf_field in Hfs. apply andb_true_iff in Hfs. destruct Hfs as [_ Hx]. exact Hx.
 Qed.
-Print Assumptions decode_typed_false.
+
+(* G2 *)
+Theorem decode_typed : forall E ec, wf_env E = true ->
+  forall i bs fuel v rest, (i < length E)%nat -> (length bs < fuel)%nat -> bytes_ok bs = true ->
+  run (decoder (map reader_plan E) ec i fuel) bs = Ok (v, rest) -> typed E ec i v = true.
+Proof.
+  intros E ec Hwf. apply decode_typed_partial; [exact Hwf|]. apply wf_env_tagged_arrays_exact. exact Hwf.
+Qed.
+Print Assumptions decode_typed.
+
